@@ -39,7 +39,7 @@ AXES = {
            "tm-spheroid", "tm-cylinder", "mielens", "abmielens", "mielens2",
            "lens-mie", "auto"],
     "det": ["g3x3", "g1x1", "g1x4", "g4x5a", "g3x3o", "p3", "p4z0", "g2ch",
-            "g2chr"],
+            "g2chr", "g3x2z2"],
     "pol": [(1, 0), (0, 1), (1, 1), (0.6, -0.8), (3, 4), (1, 1, 0)],
     "alpha": [1.0, 0.0, 0.5, 1.7, -1.0],
     # args: optics passed as arguments; detector: optics already on the
@@ -53,11 +53,12 @@ AXES = {
 # orientation / depth), so that a result cached or left over under a key
 # that is too coarse shows up as a history dependence
 OPS_ALL = ["holo-mieA", "holo-mieA2", "holo-mieA3", "holo-tmA", "holo-tmA2",
+           "holo-mie-far",
            "holo-mieB", "holo-ms2", "holo-ms2b", "holo-mielens",
            "holo-mielens2", "xsec-mie", "smat-tm", "holo-tmB", "holo-ms1",
            "holo-tmcyl", "holo-tmsph", "holo-layered"]
-OPS = {"quick": OPS_ALL[:12], "thorough": OPS_ALL}
-CORE = OPS_ALL[:5]
+OPS = {"quick": OPS_ALL[:13], "thorough": OPS_ALL}
+CORE = OPS_ALL[:6]
 
 
 def cases(tier, seed):
@@ -95,6 +96,12 @@ def _op_digest(name):
 
 # --------------------------------------------------------------------------
 def _detector(name):
+    if name == "g3x2z2":
+        # a grid detector with two z planes
+        import xarray as xr
+        a = H.det_grid((3, 2), 0.1)
+        b = a.assign_coords(z=a.z + 0.5)
+        return xr.concat([a, b], dim="z")
     if name in ("g2ch", "g2chr"):
         return H.det_grid(3, 0.1, extra_dims={"illumination": ["red",
                                                                 "green"]})
@@ -226,9 +233,9 @@ def _run_input(case, ck):
             pts = np.stack([det.x.values, det.y.values, det.z.values], 1)
             hv = holo.values
         else:
-            X, Y = np.meshgrid(det.x.values, det.y.values, indexing="ij")
-            pts = np.stack([X.ravel(), Y.ravel(),
-                            np.zeros(X.size) + float(det.z.values[0])], 1)
+            X, Y, Z = np.meshgrid(det.x.values, det.y.values, det.z.values,
+                                  indexing="ij")
+            pts = np.stack([X.ravel(), Y.ravel(), Z.ravel()], 1)
             hv = holo.transpose("x", "y", "z").values.reshape(-1)
         Ex, Ey, _ = mie_ref.holopy_field(a_, b_, H.K, H.C0, pts, pol, full,
                                          rad)
@@ -254,6 +261,9 @@ def _shared():
         _SHARED["det"] = H.det_grid(4, 0.1)
         _SHARED["detp"] = __import__("holopy").detector_points(
             theta=np.linspace(0.1, 2.5, 7), phi=np.linspace(0, 5, 7))
+        _SHARED["detfar"] = __import__("holopy").detector_points(
+            theta=np.linspace(0.1, 1.2, 5), phi=np.linspace(0, 5, 5),
+            r=1000.0)
         for k in ("mie", "ms2", "tm-spheroid", "mielens", "ms1",
                   "tm-cylinder", "tm-sphere", "layered"):
             _SHARED[k] = H.mk(k)
@@ -288,6 +298,9 @@ def _op(name):
         r = holo("mie")
     elif name == "holo-mieB":
         r = calc_holo(det, S["mieB"], theory=S["mie"][1], **kw)
+    elif name == "holo-mie-far":
+        # the same Mie theory OBJECT, detector points about 1 mm away
+        r = calc_holo(S["detfar"], S["mie"][0], theory=S["mie"][1], **kw)
     elif name in ("holo-mieA2", "holo-mieA3"):
         r = calc_holo(det, S[name[5:]], theory=S["mie"][1], **kw)
     elif name == "holo-tmA2":
@@ -325,7 +338,11 @@ def _op(name):
 
 def _inputs_fp():
     S = _shared()
-    parts = [fp_xarray(S["det"]), fp_xarray(S["detp"])]
+    parts = [fp_xarray(S["det"]), fp_xarray(S["detp"]),
+             fp_xarray(S["detfar"])]
+    for k, v in sorted(S.items()):
+        if isinstance(v, tuple) and not isinstance(v[1], str):
+            parts.append(repr(v[1]))            # theory objects
     for k, v in sorted(S.items()):
         if isinstance(v, tuple):
             parts.append(repr(v[0]))
